@@ -111,6 +111,7 @@ type inst struct {
 	rids   map[int]bool // request ids it registered under
 	regs   int
 	cancAt int
+	regAt  int // position of the first registration
 	// number of shares received when the instance was cancelled
 	gotAtCancel int
 }
@@ -179,6 +180,9 @@ func run(rids [][]byte, evs []ev) map[int]*inst {
 		case 'r':
 			in := get(e.h)
 			in.rids[e.j] = true
+			if in.regs == 0 {
+				in.regAt = i
+			}
 			in.regs++
 			input(func() { node.VerifRegisterChan(in.ctx, string(rids[e.j]), 2, in.reply) })
 			if !in.recv && !in.gone { // the recovery stage starts reading its input
@@ -308,6 +312,38 @@ func oracle(rids [][]byte, evs []ev, insts map[int]*inst) string {
 		}
 		if in.cancAt >= 0 && len(in.got) != in.gotAtCancel {
 			return fmt.Sprintf("after-cancel: instance %d received %d share(s) after its cancellation at event %d", k, len(in.got)-in.gotAtCancel, in.cancAt)
+		}
+		// a live request is served from its registration on, whatever happened to earlier pipelines of the
+		// same request id: registered once, never cancelled, nobody registers that id later
+		if in.regs == 1 && in.cancAt < 0 {
+			var j int
+			for jj := range in.rids {
+				j = jj
+			}
+			later := false
+			var want []int
+			for i, e := range evs {
+				if i <= in.regAt {
+					continue
+				}
+				if e.kind == 'r' && bytes.Equal(rids[e.j], rids[j]) {
+					later = true
+				}
+				if e.kind == 'a' && bytes.Equal(rids[e.j], rids[j]) {
+					want = append(want, i)
+				}
+			}
+			if !later {
+				var have []int
+				for _, g := range in.got {
+					if g.tag > in.regAt {
+						have = append(have, g.tag)
+					}
+				}
+				if fmt.Sprint(have) != fmt.Sprint(want) {
+					return fmt.Sprintf("starved: instance %d (request %d, registered at event %d, not cancelled, last to register that id) received %v of the shares %v that arrived after its registration", k, j, in.regAt, have, want)
+				}
+			}
 		}
 		// exactly once per delivery: registered once, its request id registered by nobody else, never cancelled
 		if in.regs == 1 && in.cancAt < 0 {
